@@ -64,6 +64,12 @@ def cases(ctx):
                             if ctx.mine(k):
                                 yield {"kind": "keep", "variant": var, "bells": list(bells), "hardware": hw,
                                        "others": others, "expect_phi_plus": expect}
+                            if hw == "generic" and not var.endswith("_seq") and "post" not in var and "seq" not in var:
+                                # a unit module with exactly as many qubits as the request needs (n = 1: a single-qubit node)
+                                k += 1
+                                if ctx.mine(k) and (not ctx.quick or n == 1 or rng.random() < 0.3):
+                                    yield {"kind": "keep", "variant": var, "bells": list(bells), "hardware": hw,
+                                           "others": others, "expect_phi_plus": expect, "tight": True}
     for basis in ("X", "Y", "Z", "MX", "MY", "MZ"):
         for b in range(4):
             for role in ("recv", "create"):
@@ -126,7 +132,7 @@ def _keep(ctx, case):
     else:
         req = PlannedRequest(role, tp, n, bells=bells)
         link = LinkModel([req])
-    pipe = Pipe(epr_sockets=[es], link=link, max_qubits=max(budget, 2), hardware=hw)
+    pipe = Pipe(epr_sockets=[es], link=link, max_qubits=(n + others) if case.get("tight") else max(budget, 2), hardware=hw)
     ex = pipe.ex
     seq_results = []
     seen_meas = []
